@@ -62,7 +62,7 @@ def run_child(case, env, full=False):
 
 @st.composite
 def configs(draw, reps):
-    fl = Flags(weights=True, max_concrete=7, max_abstract=3, dependent=False, user_mh=False, unreachable=False)
+    fl = Flags(weights=True, max_concrete=7, max_abstract=3, dependent=True, infeasible=True, user_mh=False, unreachable=False)
     spec = draw(specs(fl))
     rep = draw(st.sampled_from(reps))
     return {
